@@ -39,6 +39,10 @@ def gen(rng, tier):
     w['raise'] = rng.choice([0, 1])
     w['ret'] = rng.choice([0, 1])
     prof.handlers = rng.choice([['cont', 'ret', 'other', 'raise', 'none'], ['cont'], ['cont', 'none']])
+    if rng.random() < 0.25:
+        # a waiter is interrupted while it waits for a condition and then waits for the same condition again
+        w['interrupt'] = rng.choice([1, 2])
+        prof.handlers = ['rewait', 'rewait', 'cont', 'ret']
     return gen_program(rng, prof)
 
 
